@@ -3,7 +3,7 @@
 # Re-runs every recorded seeded change against the quick tier of the check(s) named in its meta.json (field checks_run),
 # in a scratch worktree of /repo HEAD, and prints one line per seed: DETECTED / MISSED / NOAPPLY.
 cd /verif
-ids="$@"; [ -z "$ids" ] && ids=$(ls seeded)
+ids="$@"; [ -z "$ids" ] && ids=$(cd seeded && ls -d C[0-9][0-9]_?)
 for sid in $ids; do
   d=/tmp/seedregress_$sid
   git -C /repo worktree remove --force $d >/dev/null 2>&1
